@@ -24,6 +24,7 @@ import (
 	"os"
 	"path/filepath"
 	"runtime"
+	"strconv"
 	"strings"
 	"sync"
 	"testing"
@@ -177,7 +178,7 @@ type opSpec struct {
 
 type evSpec struct {
 	AtMs     int    `json:"at_ms"` // -1: before the client is created
-	Kind     string `json:"kind"`  // failover trapflip sdown -sdown slave reboot-slave reboot-master kill-sentinel kill-node view dialfail sentinel-event
+	Kind     string `json:"kind"`  // failover trapflip trappush sdown -sdown slave reboot-slave reboot-master kill-sentinel kill-node view dialfail sentinel-event
 	Sentinel int    `json:"sentinel"`
 	Node     int    `json:"node"`
 	Nth      int    `json:"nth,omitempty"`      // trapflip: fires on the n-th list-watch answer after arming
@@ -252,6 +253,7 @@ type truthChange struct {
 	AtUs   int64  `json:"at_us"`
 	Master string `json:"master"`
 	Trap   bool   `json:"trap,omitempty"`
+	During bool   `json:"during_refresh,omitempty"` // sprung by the client's ROLE query: announced while that refresh was still running
 }
 
 type selCall struct {
@@ -342,6 +344,7 @@ type scen struct {
 	lagFrom  map[string]string
 	trap     *evSpec
 	trapLeft int
+	pushTrap *evSpec // armed: the next ROLE answer "master" of the true master on a master-option connection springs a failover announced at once
 	dmu      sync.Mutex
 	dialFail map[string]int
 }
@@ -384,6 +387,10 @@ func (sc *scen) announceAsync(i int) {
 }
 
 func (sc *scen) failoverLocked(ev *evSpec, viaTrap bool) {
+	sc.failoverLockedKind(ev, viaTrap, false)
+}
+
+func (sc *scen) failoverLockedKind(ev *evSpec, viaTrap, during bool) {
 	newM := nodeAddr(ev.Node)
 	old := sc.truthLocked()
 	if newM == old {
@@ -397,7 +404,7 @@ func (sc *scen) failoverLocked(ev *evSpec, viaTrap bool) {
 		sc.lag[newM] = ev.RoleLag
 		sc.lagFrom[newM] = old
 	}
-	sc.rec.Truth = append(sc.rec.Truth, truthChange{AtUs: sc.w.Since(), Master: newM, Trap: viaTrap})
+	sc.rec.Truth = append(sc.rec.Truth, truthChange{AtUs: sc.w.Since(), Master: newM, Trap: viaTrap, During: during})
 	for i := 0; i < sc.p.Sentinels; i++ {
 		st := 0
 		if i < len(ev.Stale) {
@@ -459,6 +466,38 @@ func (sc *scen) nodeCommand(n *fakeredis.Server) func(c *fakeredis.Conn, req int
 	}
 }
 
+// nodeAfterExec springs the armed push trap: the client's ROLE query (only sent by a refresh or a
+// switch, i.e. while the client holds its mutex) has just been answered "master" by the true master;
+// before that answer is queued the failover happens and every sentinel announces it, then this
+// goroutine yields many times so that the +switch-master push travels to the client's event handler
+// while the ROLE answer is still on its way: the event arrives DURING the refresh. No virtual time
+// is involved (a handler waiting for the client's mutex would keep the virtual clock from advancing).
+func (sc *scen) nodeAfterExec(n *fakeredis.Server) func(c *fakeredis.Conn, req int, argv []string, reply resp.Value) {
+	return func(c *fakeredis.Conn, req int, argv []string, reply resp.Value) {
+		if sc.pushTrap == nil || len(argv) != 1 || !strings.EqualFold(argv[0], "ROLE") || c.Name != "vk-m" {
+			return
+		}
+		if n.Addr != sc.truthLocked() || len(reply.A) == 0 || reply.A[0].S != "master" {
+			return
+		}
+		listening := false
+		for i := 0; i < sc.p.Sentinels; i++ {
+			if sc.g.SubscribersLocked(sentinelAddr(i), "+switch-master") > 0 {
+				listening = true
+			}
+		}
+		if !listening {
+			return
+		}
+		ev := sc.pushTrap
+		sc.pushTrap = nil
+		sc.failoverLockedKind(ev, true, true)
+		for i := 0; i < 200; i++ {
+			runtime.Gosched()
+		}
+	}
+}
+
 func (sc *scen) dialHook(addr string, attempt int) error {
 	sc.dmu.Lock()
 	defer sc.dmu.Unlock()
@@ -477,6 +516,11 @@ func (sc *scen) apply(ev *evSpec) {
 	switch ev.Kind {
 	case "failover":
 		sc.failoverLocked(ev, false)
+	case "trappush":
+		sc.pushTrap = ev
+		for i := 0; i < sc.p.Sentinels; i++ {
+			kill = append(kill, sentinelAddr(i)) // make the client refresh
+		}
 	case "trapflip":
 		sc.trap, sc.trapLeft = ev, ev.Nth
 		for i := 0; i < sc.p.Sentinels; i++ {
@@ -524,6 +568,7 @@ func (sc *scen) apply(ev *evSpec) {
 func (sc *scen) converge() {
 	sc.w.Lock()
 	sc.trap = nil
+	sc.pushTrap = nil
 	for k := range sc.lag {
 		delete(sc.lag, k)
 	}
@@ -765,6 +810,7 @@ func runSentinel(t *testing.T, p plan) *runRec {
 		g.OnQuery = sc.onQuery
 		for _, n := range g.Nodes {
 			n.Hooks.Command = sc.nodeCommand(n)
+			n.Hooks.AfterExec = sc.nodeAfterExec(n)
 		}
 		w.DialHook = sc.dialHook
 		rec.Truth = append(rec.Truth, truthChange{AtUs: w.Since(), Master: nodeAddr(p.Master)})
@@ -887,9 +933,11 @@ type userRecv struct {
 }
 
 type masterReport struct {
-	AtUs int64
-	Node string
-	Via  string
+	AtUs   int64
+	Node   string
+	Via    string
+	Server string
+	Conn   int
 }
 
 type switchPush struct {
@@ -965,7 +1013,7 @@ func observe(events []fakeredis.Event) *obs {
 				}
 			}
 			if isSentinelAddr(e.Server) && len(e.Argv) == 3 && strings.EqualFold(e.Argv[0], "SENTINEL") && strings.EqualFold(e.Argv[1], "GET-MASTER-ADDR-BY-NAME") && len(e.Reply.A) == 2 {
-				o.reports = append(o.reports, masterReport{AtUs: e.At, Node: net.JoinHostPort(e.Reply.A[0].S, e.Reply.A[1].S), Via: "get-master-addr-by-name"})
+				o.reports = append(o.reports, masterReport{AtUs: e.At, Node: net.JoinHostPort(e.Reply.A[0].S, e.Reply.A[1].S), Via: "get-master-addr-by-name", Server: e.Server, Conn: e.Conn})
 			}
 		case "push":
 			if e.Reply == nil || len(e.Reply.A) < 3 || e.Reply.A[0].S != "message" || !isSentinelAddr(e.Server) {
@@ -976,12 +1024,12 @@ func observe(events []fakeredis.Event) *obs {
 			case "+switch-master":
 				if len(f) == 5 && f[0] == masterSet {
 					n := net.JoinHostPort(f[3], f[4])
-					o.reports = append(o.reports, masterReport{AtUs: e.At, Node: n, Via: "+switch-master"})
+					o.reports = append(o.reports, masterReport{AtUs: e.At, Node: n, Via: "+switch-master", Server: e.Server, Conn: e.Conn})
 					o.pushes = append(o.pushes, switchPush{AtUs: e.At, Server: e.Server, Conn: e.Conn, New: n})
 				}
 			case "+reboot":
 				if len(f) >= 4 && f[0] == "master" && f[1] == masterSet {
-					o.reports = append(o.reports, masterReport{AtUs: e.At, Node: net.JoinHostPort(f[2], f[3]), Via: "+reboot"})
+					o.reports = append(o.reports, masterReport{AtUs: e.At, Node: net.JoinHostPort(f[2], f[3]), Via: "+reboot", Server: e.Server, Conn: e.Conn})
 				}
 			}
 		}
@@ -1079,7 +1127,11 @@ func TestDebug_Replay(t *testing.T) {
 	if err := json.Unmarshal(b, &p); err != nil {
 		t.Fatal(err)
 	}
-	for i := 0; i < 200; i++ {
+	runs := 200
+	if n, err := strconv.Atoi(os.Getenv("SEN_RUNS")); err == nil && n > 0 {
+		runs = n
+	}
+	for i := 0; i < runs; i++ {
 		var rec *runRec
 		if p.Client == "standalone" {
 			rec = runStandalone(t, p)
